@@ -690,7 +690,8 @@ impl Model for ChanModel {
                 outcome_tag = "ok".into();
             }
             Op::Setup => {
-                let r = s.w().setup_channel(DBID, &s.setup);
+                // protocol version 5 configurations set the channel up by the SetupChannel message
+                let r = if self.cfg.pv == 5 && !self.cfg.cloud { s.w().setup_channel_wire(DBID, &s.setup) } else { s.w().setup_channel(DBID, &s.setup) };
                 outcome_tag = r.tag();
                 if r.is_ok() {
                     let first = !s.ghost.is_setup;
